@@ -129,6 +129,15 @@ def analyze(ex, stmts, eff=None):
             if r: eff.mutated.add(r)
 
     def visit(n):
+        if isinstance(n, ast.stmt) and ex.spec.get('stmt_effects'):
+            seg = ast.get_source_segment(ex.fsrc.src, n) or ''
+            for prefix, handler in ex.spec['stmt_effects'].items():
+                if seg.startswith(prefix):
+                    for m in getattr(handler, 'mutates', ()):
+                        eff.mutated.add(m)
+                    for m in getattr(handler, 'assigns', ()):
+                        eff.assigned.add(m)
+                    return
         if isinstance(n, (ast.FunctionDef, ast.AsyncFunctionDef, ast.Lambda,
                           ast.ClassDef)):
             if isinstance(n, ast.FunctionDef):
@@ -217,9 +226,20 @@ def analyze(ex, stmts, eff=None):
             if isinstance(g, ModuleEnv):
                 cs = ex.reg.find_function(g.rel, chain[1])
         if cs is None and isinstance(n.func, ast.Attribute):
-            # method of a record type: found by method name among contracts
-            cs = ex.reg.find_method_by_name(n.func.attr)
+            # method of a record type: found by method name among contracts.
+            # Conservative: if several classes have such a method, the effects
+            # of all of them are assumed.
+            cands = [c for c in ex.reg.specs.values()
+                     if c['qualname'].endswith('.' + n.func.attr)
+                     and c.get('self_type') is not None]
+            for c in cands[1:]:
+                _contract_effects(c, n)
+            cs = cands[0] if cands else None
         if cs is not None:
+            _contract_effects(cs, n)
+
+    def _contract_effects(cs, n):
+        if True:
             params = list(cs['params'])
             amap = dict(zip(params, n.args))
             for k in n.keywords: amap[k.arg] = k.value
@@ -330,6 +350,32 @@ def predeclare(ex, st, names):
                 st.bound[n] = z3.BoolVal(False)
 
 
+def check_havoc_complete(ex, head, after, names, roots, ordinal):
+    """safety net for the syntactic effect analysis: whatever differs between
+    the loop head and the end of the body must have been havocked"""
+    from .symexec import Ref, STALE
+    allowed = set(names) | set(roots) | {'clock!'}
+    for k, v in after.env.items():
+        if k in allowed or k.startswith(('tmp!', 'keys_')):
+            continue
+        h = head.env.get(k)
+        if h is v:
+            continue
+        if isinstance(v, Val) and isinstance(h, Val) and v.term is not None \
+           and h.term is not None and v.term.eq(h.term):
+            continue
+        if h is None and k not in head.env:
+            # a fresh local of the body
+            if k in ex.assigned_locals or k.startswith('i_'):
+                continue
+        if isinstance(v, (PyTuple, PyDict)) or v is STALE or isinstance(v, Ref) \
+           or not isinstance(v, Val) or not isinstance(h, Val):
+            continue
+        raise OutsideSubset('loop %s changes %s, which the effect analysis did '
+                            'not havoc (engine safety net); havocked: %s'
+                            % (ordinal, k, sorted(allowed)))
+
+
 def invariants(ex, ordinal):
     invs = ex.spec.get('loops', {}).get(ordinal)
     if invs is None:
@@ -375,6 +421,7 @@ def exec_while(ex, node, st):
     outs  = list()
     after = list()
 
+    st.heads['entry:' + ordinal] = dict(st.env)
     check_invs(ex, st, ordinal, invs, 'entry')
 
     h = st.fork()
@@ -426,6 +473,7 @@ def exec_while(ex, node, st):
         if taken:
             for kind, s2, val in ex.exec_block(node.body, s):
                 if kind in ('next', 'continue'):
+                    check_havoc_complete(ex, h, s2, names, roots, ordinal)
                     check_invs(ex, s2, ordinal, invs, 'preserve')
                 elif kind == 'break':
                     after.append(s2)
@@ -540,6 +588,11 @@ def exec_for(ex, node, st):
     gi = 'i_' + tnames[-1]
     invs = invariants(ex, ordinal)
     eff  = analyze(ex, node.body)
+    # the loop's own variables alias the container that is iterated
+    own = base_root(node.iter)
+    if own:
+        for t in tnames:
+            eff.aliases.setdefault(t, set()).add(own)
     names, roots = havoc_set(ex, st, eff)
     names |= set(tnames) | {gi}
     # the iterated container may have its elements mutated, not its length
@@ -581,6 +634,7 @@ def exec_for(ex, node, st):
             return
         ex.bind_target(tgt, e, s)
 
+    st.heads['entry:' + ordinal] = dict(st.env)
     check_invs(ex, st, ordinal, invs, 'entry')
 
     h = st.fork()
@@ -614,6 +668,8 @@ def exec_for(ex, node, st):
                 outs.append(('raise', es, (exc, line)))
             for kind, s2, val in ex.exec_block(node.body, s):
                 if kind in ('next', 'continue'):
+                    check_havoc_complete(ex, h, s2, names | set(tnames) | {gi},
+                                         roots, ordinal)
                     s2.env[gi] = Val(TInt, i + 1)
                     if refmode:
                         s2.env[tnames[-1]] = STALE
